@@ -379,6 +379,17 @@ theorem transpile_den_device (dev : Device) (M N : ℕ) (ρ : ℕ → ℝ)
   · rw [if_neg hlt] at hv
     exact transpile_den dev N ρ gs out hg hph hv U hU
 
+-- non-vacuity: a three-qubit circuit on the five-qubit ring meets every hypothesis
+example (ρ : ℕ → ℝ) :
+    let gs : List Gate := [⟨.ISWAP, [0, 2], [], {}⟩, ⟨.SNOT, [1], [], {}⟩, ⟨.CNOT, [0], [2], {}⟩]
+    (∀ g ∈ gs, InClass 3 g) ∧ (∀ g ∈ gs, phOK g = true) ∧
+    (transpileD tables preDecompose true (deviceSpec .circularSpinChain) (smallSpec .circularSpinChain) 5 3
+      gs).toOption.isSome = true ∧ ∃ U, denG 3 ρ gs = some U := by
+  refine ⟨?_, by decide, by decide +kernel, denG_isSome_of_denE 3 ρ _ (by decide) (by decide +kernel)⟩
+  intro g hg
+  simp only [List.mem_cons, List.not_mem_nil, or_false] at hg
+  rcases hg with rfl | rfl | rfl <;> exact ⟨by decide, by decide⟩
+
 /-- **the code as found** (no size check, the ring routed on `qc.N`): the coupling clause on the device's
 graph holds when the circuit has the size of the processor, or is smaller and the device is not the
 ring; nothing is said about larger circuits (they are not refused) -/
@@ -398,6 +409,13 @@ theorem transpile_coupled_device_partial (dev : Device) (M N : Nat) (gs out : Li
     · exact absurd rfl hd
     · exact this
     · trivial
+
+-- instances of the side condition: the open chain with a smaller circuit is covered, the ring is not
+example : (3 = 5 ∨ (3 < 5 ∧ Device.linearSpinChain ≠ .circularSpinChain)) ∧
+    ¬ (3 = 5 ∨ (3 < 5 ∧ Device.circularSpinChain ≠ .circularSpinChain)) ∧
+    ((transpileD tables preDecompose false (deviceSpec .linearSpinChain) (deviceSpec .linearSpinChain) 5 3
+      [⟨.ISWAP, [0, 2], [], {}⟩]).toOption.map (fun out => out.all (gateCoupledB (some .linear) 5))) = some true := by
+  refine ⟨Or.inr ⟨by decide, by decide⟩, by decide, by decide +kernel⟩
 
 /-- counter-example for the code as found: a 3-qubit circuit on a ring of 4 qubits — `ISWAP[0, 2]` is the
 wrap pair of a 3-ring, the router leaves it alone, and qubits 2 and 0 are not coupled on the 4-ring
